@@ -227,6 +227,8 @@ struct TlsState {
     pending: Vec<u8>,
     /// number of read() calls made while written bytes were waiting for a flush
     unflushed_reads: usize,
+    /// at most this many bytes are accepted per write() (0 = everything)
+    wcap: usize,
 }
 
 thread_local! {
@@ -337,13 +339,15 @@ impl Write for TlsTransport {
         TS.with(|ts| {
             let mut ts = ts.borrow_mut();
             let ts = ts.as_mut().expect("harness: tls state missing");
+            let n = if ts.wcap > 0 && ts.flushed_once { buf.len().min(ts.wcap) } else { buf.len() };
+            let buf = &buf[..n];
             if !ts.flushed_once {
                 ts.plainout.extend_from_slice(buf);
             } else {
                 ts.after.extend_from_slice(buf);
                 ts.pending.extend_from_slice(buf);
             }
-            Ok(buf.len())
+            Ok(n)
         })
     }
 
@@ -502,6 +506,7 @@ pub fn run_case(case: Case) -> (String, Vec<Aux>) {
             tlsout: Vec::new(),
             pending: Vec::new(),
             unflushed_reads: 0,
+            wcap: case.wcap,
         });
     });
     let case = Arc::new(case);
